@@ -165,6 +165,26 @@ def apply_prefix(s, ops):
                 elif k == "detokenise_invalid":
                     from scoda.tokenisation.notelike_tokenisation import MultiTrackLargeVocabularyNotelikeTokeniser as _Tok
                     _Tok(num_tracks=1).detokenise(["bar", "no_such_token"])
+                elif k == "bar_on_self_error_kept":
+                    # Bar construction on the sequence ITSELF is rejected, the caller keeps the exception object (an error list, a
+                    # pytest excinfo) while it edits the sequence through the absolute API, and lets go of it afterwards
+                    from scoda.elements.bar import Bar
+                    from scoda.elements.message import Message
+                    kept = []
+                    ts = [m for m in s.rel._messages if m.message_type == MT.TIME_SIGNATURE]
+                    nd = (5, 8) if any((m.numerator, m.denominator) != (5, 8) for m in ts) else (1, 32)
+                    if nd == (1, 32) and sum(m.time for m in s.rel._messages if m.message_type == MT.WAIT) <= 3:
+                        LOG.n("prefix.rejected_call_skipped(would be accepted)." + str(k))
+                        continue
+                    try:
+                        Bar(s, nd[0], nd[1])
+                        LOG.n("prefix.rejected_call_did_not_raise." + str(k))
+                    except Exception as e:
+                        kept.append(e)
+                        LOG.n("prefix.rejected_call_raised." + str(k))
+                    s.add_absolute_message(Message(message_type=MT.CONTROL_CHANGE, channel=0, control=66, velocity=3, time=0))
+                    kept.clear()
+                    continue
                 elif k == "overwrite_stale":
                     ms = list(s.abs._messages)
                     s.rel
@@ -176,7 +196,8 @@ def apply_prefix(s, ops):
     return s
 
 
-REJECTED_KINDS = ["scale_fraction", "bar_overlong", "tokenise_invalid", "scale_small", "bar_conflicting_signature", "detokenise_invalid"]
+REJECTED_KINDS = ["scale_fraction", "bar_overlong", "tokenise_invalid", "scale_small", "bar_conflicting_signature", "detokenise_invalid",
+                  "bar_on_self_error_kept"]
 
 
 EDIT_OPS = ["cutoff", "set_channel", "transpose", "concat_copy", "iter_rel_velocity_edit", "pad", "scale", "merge_empty"]
